@@ -125,6 +125,7 @@ class GeneratorFamily(Family):
                 if len(st) != size:
                     res.fail('C16-generator-size', '%s size %d: step of %d gates' % (name, size, len(st)))
             emitted.append(tuple(sorted(steps)))
+            judge_reported_parking(seq, steps, L, '%s size %d' % (name, size), res.fail)
         if len(set(emitted)) != len(emitted):
             res.fail('C16-generator-duplicate', '%s size %d: a sequence is emitted twice' % (name, size))
         # every partition into accepted steps
@@ -149,6 +150,29 @@ class GeneratorFamily(Family):
         res.transitions = len(emitted)
         res.trivial = not (emitted and total[0] > len(emitted))
         return res
+
+
+def judge_reported_parking(seq, steps, L, label, fail):
+    """What an emitted sequence reports per step - directly and through the generic layer built from it - is exactly the set
+    of idle qubits that require parking for that step's gates (the statement's parking clause, applied to emitted steps).
+    The generic layer is queried too, as a user would before handing it to a description constructor."""
+    for how, parks in (('get_required_parkings', seq.get_required_parkings(L)),
+                       ('to_generic_surface_code', (lambda g: [list(g.get_gate_sequence_at_index(i).park_operations) for i in range(g.gate_sequence_count)])(seq.to_generic_surface_code(L)))):
+        if len(parks) != len(seq.gate_operations):
+            fail('C16-generator-parking', '%s: %s reports %d steps for %d' % (label, how, len(parks), len(seq.gate_operations)))
+            continue
+        for step, ops in zip(seq.gate_operations, parks):
+            st = [tuple(sorted(q.id for q in op.identifier.qubit_ids)) for op in step]
+            got = sorted(op.identifier.id for op in ops)
+            want = sorted(q for q in freq.QUBITS if freq.requires_parking(q, st))
+            if got != want:
+                fail('C16-generator-parking', '%s: %s reports parking %r for step %r, required are %r' % (label, how, got, sorted(st), want))
+    generic = seq.to_generic_surface_code(L)
+    for i in range(generic.gate_sequence_count):
+        layer = generic.get_gate_sequence_at_index(i)
+        edge_ids = [op.identifier for op in layer.gate_operations]
+        for q in generic.qubit_ids:
+            get_requires_parking(q, edge_ids, generic)
 
 
 class GeneratorSequenceFamily(Family):
@@ -209,6 +233,7 @@ def two_runs(case):
             for st in steps:
                 if not freq.accepted(list(st)):
                     fails.append(('C16-generator-step', 'lists %r (run in this order), list %d: emitted step %r is not accepted by the predicate' % (case, which, st)))
+            judge_reported_parking(seq, steps, L, 'lists %r (run in this order), list %d' % (case, which), lambda c, d: fails.append((c, d)))
         out.append(n)
     return fails, out
 
